@@ -6,10 +6,28 @@ use rand_distr::multi::{Dirichlet, MultiDistribution};
 use rand_distr::weighted::{WeightedAliasIndex, WeightedTreeIndex};
 use rand_distr::*;
 
-pub type R = Mon<Scripted>;
+pub type R = Mon<AnyWords>;
 
-pub trait Subject {
+pub fn fnv(h: u64, x: u64) -> u64 {
+    (h ^ x).wrapping_mul(0x100000001b3)
+}
+
+pub trait Subject: Send + Sync {
     fn call(&self, rng: &mut R) -> (Sup, Val);
+    /// hash of every bit of the returned sample (all components for vector-valued samplers)
+    fn call_hash(&self, rng: &mut R) -> u64 {
+        fnv(0xcbf29ce484222325, self.call(rng).1.bits())
+    }
+    fn clone_box(&self) -> Box<dyn Subject>;
+    /// `PartialEq` against another subject of the same concrete type (None if the type has no PartialEq)
+    fn eq_dyn(&self, _other: &dyn Subject) -> Option<bool> {
+        None
+    }
+    fn as_any(&self) -> &dyn std::any::Any;
+    /// hashes of `n` samples drawn through `sample_iter`
+    fn iter_hashes(&self, _rng: &mut R, _n: usize) -> Option<Vec<u64>> {
+        None
+    }
     fn debug(&self) -> String;
     fn is_f32(&self) -> bool;
     /// number of scalar components per sample (for the C05 mean-words bound)
@@ -18,11 +36,24 @@ pub trait Subject {
     }
 }
 
-struct Scalar {
-    case: Case,
-    d: Dist,
+#[derive(Clone)]
+pub struct Scalar {
+    pub case: Case,
+    pub d: Dist,
 }
 impl Subject for Scalar {
+    fn clone_box(&self) -> Box<dyn Subject> {
+        Box::new(self.clone())
+    }
+    fn eq_dyn(&self, other: &dyn Subject) -> Option<bool> {
+        other.as_any().downcast_ref::<Scalar>().map(|o| o.d == self.d)
+    }
+    fn as_any(&self) -> &dyn std::any::Any {
+        self
+    }
+    fn iter_hashes(&self, rng: &mut R, n: usize) -> Option<Vec<u64>> {
+        Some(self.d.iter_hashes(rng, n))
+    }
     #[inline]
     fn call(&self, rng: &mut R) -> (Sup, Val) {
         let v = self.d.sample(rng);
@@ -38,8 +69,23 @@ impl Subject for Scalar {
 
 macro_rules! unit_subject {
     ($name:ident, $D:ident, $n:expr, $F:ty, $is32:expr, $check:expr) => {
+        #[derive(Clone)]
         struct $name;
         impl Subject for $name {
+            fn clone_box(&self) -> Box<dyn Subject> {
+                Box::new(self.clone())
+            }
+            fn as_any(&self) -> &dyn std::any::Any {
+                self
+            }
+            fn call_hash(&self, rng: &mut R) -> u64 {
+                let x: [$F; $n] = $D.sample(rng);
+                x.iter().fold(0xcbf29ce484222325, |h, c| fnv(h, c.to_bits() as u64))
+            }
+            fn iter_hashes(&self, rng: &mut R, n: usize) -> Option<Vec<u64>> {
+                let it = Distribution::<[$F; $n]>::sample_iter($D, rng);
+                Some(it.take(n).map(|x: [$F; $n]| x.iter().fold(0xcbf29ce484222325, |h, c| fnv(h, c.to_bits() as u64))).collect())
+            }
             fn call(&self, rng: &mut R) -> (Sup, Val) {
                 let x: [$F; $n] = $D.sample(rng);
                 let mut n2 = 0.0f64;
@@ -77,8 +123,26 @@ unit_subject!(UBall64, UnitBall, 3, f64, false, |n, e| n <= 1.0 + 4.0 * e);
 
 macro_rules! dirichlet_subject {
     ($name:ident, $F:ty, $is32:expr) => {
+        #[derive(Clone)]
         struct $name(Dirichlet<$F>, usize);
         impl Subject for $name {
+            fn clone_box(&self) -> Box<dyn Subject> {
+                Box::new(self.clone())
+            }
+            fn as_any(&self) -> &dyn std::any::Any {
+                self
+            }
+            fn eq_dyn(&self, other: &dyn Subject) -> Option<bool> {
+                other.as_any().downcast_ref::<$name>().map(|o| o.0 == self.0)
+            }
+            fn call_hash(&self, rng: &mut R) -> u64 {
+                let x: Vec<$F> = self.0.sample(rng);
+                x.iter().fold(0xcbf29ce484222325, |h, c| fnv(h, c.to_bits() as u64))
+            }
+            fn iter_hashes(&self, rng: &mut R, n: usize) -> Option<Vec<u64>> {
+                let it = (&self.0).sample_iter(rng);
+                Some(it.take(n).map(|x: Vec<$F>| x.iter().fold(0xcbf29ce484222325, |h, c| fnv(h, c.to_bits() as u64))).collect())
+            }
             fn call(&self, rng: &mut R) -> (Sup, Val) {
                 let x: Vec<$F> = self.0.sample(rng);
                 if x.len() != self.1 {
@@ -116,8 +180,19 @@ dirichlet_subject!(Dir64, f64, false);
 
 macro_rules! weighted_subject {
     ($aname:ident, $tname:ident, $W:ty, $is32:expr, $conv:expr) => {
+        #[derive(Clone)]
         struct $aname(WeightedAliasIndex<$W>, Vec<$W>);
         impl Subject for $aname {
+            fn clone_box(&self) -> Box<dyn Subject> {
+                Box::new(self.clone())
+            }
+            fn as_any(&self) -> &dyn std::any::Any {
+                self
+            }
+            fn iter_hashes(&self, rng: &mut R, n: usize) -> Option<Vec<u64>> {
+                let it = (&self.0).sample_iter(rng);
+                Some(it.take(n).map(|i: usize| fnv(0xcbf29ce484222325, i as u64)).collect())
+            }
             fn call(&self, rng: &mut R) -> (Sup, Val) {
                 let i: usize = self.0.sample(rng);
                 let zero: $W = Default::default();
@@ -130,8 +205,22 @@ macro_rules! weighted_subject {
                 $is32
             }
         }
+        #[derive(Clone)]
         struct $tname(WeightedTreeIndex<$W>, Vec<$W>);
         impl Subject for $tname {
+            fn clone_box(&self) -> Box<dyn Subject> {
+                Box::new(self.clone())
+            }
+            fn as_any(&self) -> &dyn std::any::Any {
+                self
+            }
+            fn eq_dyn(&self, other: &dyn Subject) -> Option<bool> {
+                other.as_any().downcast_ref::<$tname>().map(|o| o.0 == self.0)
+            }
+            fn iter_hashes(&self, rng: &mut R, n: usize) -> Option<Vec<u64>> {
+                let it = (&self.0).sample_iter(rng);
+                Some(it.take(n).map(|i: usize| fnv(0xcbf29ce484222325, i as u64)).collect())
+            }
             fn call(&self, rng: &mut R) -> (Sup, Val) {
                 let i: usize = self.0.sample(rng);
                 let zero: $W = Default::default();
